@@ -19,15 +19,23 @@ Import ListNotations.
 Open Scope list_scope.
 Open Scope nat_scope.
 
+(* The isomorphism oracle is only ever asked finitely many questions for a given reactant / product:
+   (reactant, product) and (apply_edit r fb bb, product) for the candidates `all_cands r p` built by the
+   five get_fbonds_bbonds_* functions.  `Hiso_on iso_b r p` says the oracle is right on exactly those
+   questions (Lemmas.Hiso_global_on: a global decider of Iso satisfies it).  It is an ASSUMPTION about
+   networkx / mol_graphs.is_isomorphic (which answers False after a 5 s timeout); the harness validates
+   every answer actually given against networkx on every run. *)
+
 (* SOUNDNESS.  Whatever the enumeration returns (for any pruning oracles, either setting of
    skip_small_ring_tss) is a non-empty list, and every returned rearrangement breaks only bonds of
    the reactant, forms only bonds absent from it, and turns the reactant graph into a graph
-   isomorphic (elements matching) to the product.  Only the direction "oracle says yes -> isomorphic"
-   of Hiso is needed. *)
+   isomorphic (elements and atom classes matching) to the product.  Only "oracle says yes -> isomorphic"
+   on the candidates is needed. *)
 Theorem rearrs_sound :
   forall (iso_b : graph -> graph -> bool) (mv : nat -> nat) (nl : rearr -> nat)
          (rings : rearr -> list nat) (skip : bool) (r p : graph) (n_atoms_p : nat) (l : list rearr),
-    (forall g h, iso_b g h = true -> Iso g h) ->
+    (forall c, In c (all_cands r p) -> iso_b (apply_edit r (fst c) (snd c)) p = true ->
+               Iso (apply_edit r (fst c) (snd c)) p) ->
     get_bond_rearrangs iso_b mv nl rings skip r p n_atoms_p = Ok l ->
     l <> [] /\
     forall fb bb, In (fb, bb) l ->
@@ -38,27 +46,28 @@ Proof.
   intros iso_b mv nl rings skip r p n l Hiso H. unfold get_bond_rearrangs in H.
   destruct (enumerate iso_b mv r p n) as [l0| | |] eqn:E; try discriminate.
   inversion H; subst; clear H.
-  destruct (enumerate_sound iso_b mv r p Hiso n l0 E) as [Hne Hs]. split.
+  destruct (enumerate_sound iso_b mv r p n l0 Hiso E) as [Hne Hs]. split.
   - apply post_nonempty; auto.
   - intros fb bb Hin. apply post_incl in Hin. apply (Hs (fb, bb) Hin).
 Qed.
 
-(* COMPLETENESS.  If the product is not isomorphic to the reactant and SOME edit with at most two
-   breaking and at most two forming bonds, net loss of bonds 0..2, breaking bonds present, forming
-   bonds absent (between atoms of the reactant), no atom pushed beyond its maximal valence
-   (its degree after the edit is at most max(maximal valence, degree before)) turns the reactant
-   into a graph isomorphic to the product, then the enumeration returns a non-empty list - for every
-   assignment of the pruning oracles and either setting of skip_small_ring_tss.
-   All fourteen+1 bond-type patterns of the five get_fbonds_bbonds_* functions are covered (no case
-   is left open). *)
-Theorem rearrs_complete :
+(* COMPLETENESS (partial with respect to the property text: see rearrs_complete_identity_refuted).
+   If SOME edit with at most two breaking and at most two forming bonds, net loss of bonds 0..2,
+   breaking bonds present, forming bonds absent (between atoms of the reactant), no atom pushed beyond
+   its maximal valence (its degree after the edit is at most max(maximal valence, degree before)) turns
+   the reactant into a graph isomorphic to the product, AND the product is not isomorphic to the
+   reactant - or the product has at most 3 atoms and the edit breaks at least one bond - then the
+   enumeration returns a non-empty list, for every assignment of the pruning oracles and either setting
+   of skip_small_ring_tss.  All 1+2+2+5+15 bond-type patterns of the five get_fbonds_bbonds_* functions
+   are covered. *)
+Theorem rearrs_complete_partial :
   forall (iso_b : graph -> graph -> bool) (mv : nat -> nat) (nl : rearr -> nat)
          (rings : rearr -> list nat) (skip : bool) (r p : graph) (n_atoms_p : nat),
-    (forall g h, iso_b g h = true <-> Iso g h) ->
+    Hiso_on iso_b r p ->
     wf r -> wf p ->
-    ~ Iso r p ->
     forall fb bb : list edge,
-      length bb <= 2 -> length fb <= 2 -> length fb <= length bb -> length bb - length fb <= 2 ->
+      (~ Iso r p \/ (n_atoms_p <= 3 /\ bb <> [])) ->
+      length bb <= 2 -> length fb <= 2 -> length fb <= length bb ->
       NoDup (map norm bb) -> NoDup (map norm fb) ->
       (forall b, In b bb -> In_u b (g_edges r)) ->
       (forall f, In f fb -> ~ In_u f (g_edges r) /\ In (fst f) (g_nodes r) /\ In (snd f) (g_nodes r)) ->
@@ -67,15 +76,78 @@ Theorem rearrs_complete :
       Iso (apply_edit r fb bb) p ->
       exists l, get_bond_rearrangs iso_b mv nl rings skip r p n_atoms_p = Ok l /\ l <> [].
 Proof.
-  intros iso_b mv nl rings skip r p n Hiso Hwr Hwp Hnot fb bb Lb Lf Lfb _ Nb Nf Hb Hf Hdeg HI.
+  intros iso_b mv nl rings skip r p n Hloc Hwr Hwp fb bb Hgo Lb Lf Lfb Nb Nf Hb Hf Hdeg HI.
   assert (Cl : clean r fb bb).
   { constructor; auto; intros f Hin; apply (Hf f Hin). }
-  destruct (enumerate_complete iso_b mv r p Hiso Hwr Hwp fb bb n Cl HI Hnot Hdeg Lb Lfb) as [l E].
-  assert (Hs : forall g h, iso_b g h = true -> Iso g h) by (intros g h; apply Hiso).
-  destruct (enumerate_sound iso_b mv r p Hs n l E) as [Hne _].
+  destruct (enumerate_complete iso_b mv r p Hloc Hwr Hwp fb bb n Cl HI Hgo Hdeg Lb Lfb) as [l E].
+  assert (Hs : forall c, In c (all_cands r p) -> iso_b (apply_edit r (fst c) (snd c)) p = true ->
+                         Iso (apply_edit r (fst c) (snd c)) p).
+  { intros c Hc. apply (proj2 Hloc c Hc). }
+  destruct (enumerate_sound iso_b mv r p n l Hs E) as [Hne _].
   exists (post nl rings (elems_of r) skip l). split.
   - unfold get_bond_rearrangs. rewrite E. reflexivity.
   - apply post_nonempty; auto.
+Qed.
+
+(* The completeness clause of the property WITHOUT the exemption is FALSE of the faithful model (and of
+   the code, finding key `incomplete|identity-reaction`): the identity substitution
+   Cl + CH3-Cl -> Cl-CH3 + Cl (one bond broken, one formed, every valence respected, 6 atoms) has a
+   product isomorphic to the reactant, and bond_rearrangement.py:39-45 returns None for it whatever
+   the (correct) isomorphism oracle, pruning oracles and skip flag. *)
+Definition id_r : graph :=   (* 0:Cl 1:C 2:Cl 3,4,5:H ; labels C=0 Cl=1 H=2 *)
+  mkGraph [0; 1; 2; 3; 4; 5] (fun i => match i with 1 => 0 | 0 | 2 => 1 | _ => 2 end) (fun _ => 0)
+          [(1, 2); (1, 3); (1, 4); (1, 5)].
+Definition id_p : graph :=
+  mkGraph [0; 1; 2; 3; 4; 5] (fun i => match i with 1 => 0 | 0 | 2 => 1 | _ => 2 end) (fun _ => 0)
+          [(0, 1); (1, 3); (1, 4); (1, 5)].
+Definition id_mv (lab : nat) : nat := match lab with 2 => 1 | _ => 4 end.
+
+Theorem rearrs_complete_identity_refuted :
+  exists (r p : graph) (mv : nat -> nat) (fb bb : list edge) (n_atoms_p : nat),
+    wf r /\ wf p /\ n_atoms_p = length (g_nodes p) /\
+    length bb <= 2 /\ length fb <= 2 /\ length fb <= length bb /\
+    NoDup (map norm bb) /\ NoDup (map norm fb) /\
+    (forall b, In b bb -> In_u b (g_edges r)) /\
+    (forall f, In f fb -> ~ In_u f (g_edges r) /\ In (fst f) (g_nodes r) /\ In (snd f) (g_nodes r)) /\
+    (forall i, In i (g_nodes r) -> degree (apply_edit r fb bb) i <= Nat.max (mv (g_label r i)) (degree r i)) /\
+    Iso (apply_edit r fb bb) p /\
+    forall iso_b nl rings skip, Hiso_on iso_b r p ->
+      get_bond_rearrangs iso_b mv nl rings skip r p n_atoms_p = RNone.
+Proof.
+  exists id_r, id_p, id_mv, [(0, 1)], [(1, 2)], 6.
+  assert (W1 : wf id_r).
+  { constructor; cbn.
+    - repeat constructor; cbn; intuition discriminate.
+    - intros e H. repeat (destruct H as [<-|H]; [cbn; auto 10|]). destruct H. }
+  assert (W2 : wf id_p).
+  { constructor; cbn.
+    - repeat constructor; cbn; intuition discriminate.
+    - intros e H. repeat (destruct H as [<-|H]; [cbn; auto 10|]). destruct H. }
+  assert (HI : Iso id_r id_p).
+  { exists (fun i => match i with 0 => 2 | 2 => 0 | _ => i end), (fun i => match i with 0 => 2 | 2 => 0 | _ => i end).
+    repeat apply conj.
+    - intros i Hi. cbn in Hi. repeat (destruct Hi as [<-|Hi]; [cbn; auto 10|]). destruct Hi.
+    - intros i Hi. cbn in Hi. repeat (destruct Hi as [<-|Hi]; [cbn; auto 10|]). destruct Hi.
+    - intros i j Hi Hj. unfold adj. cbn in Hi, Hj.
+      repeat (destruct Hi as [<-|Hi];
+              [repeat (destruct Hj as [<-|Hj];
+                       [split; intros X; apply has_edge_iff; apply has_edge_iff in X; vm_compute in *; congruence|]);
+               destruct Hj|]).
+      destruct Hi.
+    - intros i Hi. reflexivity. }
+  repeat apply conj; auto; try (cbn; lia).
+  - repeat constructor; cbn; intuition discriminate.
+  - repeat constructor; cbn; intuition discriminate.
+  - intros b [<-|[]]. apply In_In_u. cbn; auto.
+  - intros f [<-|[]]. repeat apply conj; cbn; auto. apply has_edge_false. reflexivity.
+  - intros i Hi. cbn in Hi. repeat (destruct Hi as [<-|Hi]; [vm_compute; lia|]). destruct Hi.
+  - apply adj_equiv_Iso. repeat apply conj; auto. apply equiv_l_of_incl.
+    + intros x Hx. vm_compute in Hx. apply has_edge_iff.
+      repeat (destruct Hx as [<-|Hx]; [reflexivity|]). destruct Hx.
+    + intros x Hx. vm_compute in Hx. apply has_edge_iff.
+      repeat (destruct Hx as [<-|Hx]; [reflexivity|]). destruct Hx.
+  - intros iso_b nl rings skip [H0 _]. unfold get_bond_rearrangs, enumerate.
+    rewrite (proj2 H0 HI). reflexivity.
 Qed.
 
 (* PRUNING never removes the last rearrangement, for EVERY oracle assignment (neighbour-list classes,
@@ -108,7 +180,7 @@ Qed.
    get_bond_rearrangs_from_file, gives a list equal to the saved one (same forming and breaking
    bonds in the same order), for every list of rearrangements. *)
 Theorem save_load_roundtrip :
-  forall brs : list rearr, load (save brs) = Some brs.
+  forall brs : list rearr, load (save brs) = inl brs.
 Proof. exact load_save. Qed.
 
 (* ------------------------------------------------------------------ non-vacuity *)
@@ -117,8 +189,7 @@ Definition ex_r : graph := mkGraph [0; 1; 2] (fun i => i) (fun _ => 0) [(0, 1)].
 Definition ex_p : graph := mkGraph [0; 1; 2] (fun i => i) (fun _ => 0) [(1, 2)].
 Definition ex_mv (lab : nat) : nat := match lab with 0 => 4 | 1 => 1 | _ => 3 end.
 
-(* every premise of rearrs_complete other than Hiso holds for this instance (Hiso itself says the
-   oracle decides Iso; such a function exists classically) *)
+(* every premise of rearrs_complete_partial other than Hiso_on holds for this instance (Hiso_on: ex_Hiso_on) *)
 Example complete_premises_satisfiable :
   wf ex_r /\ wf ex_p /\ ~ Iso ex_r ex_p /\
   NoDup (map norm [(0, 1)]) /\ NoDup (map norm [(1, 2)]) /\
@@ -146,10 +217,34 @@ Proof.
   - apply adj_equiv_Iso. repeat apply conj; auto. vm_compute. intros e; tauto.
 Qed.
 
-(* the model runs: with an oracle that recognises the product's own edge list the enumeration of
-   this instance returns exactly the one rearrangement *)
+(* END-TO-END INSTANCE.  With the oracle that recognises the product's own edge list the hypothesis
+   Hiso_on holds for this instance (its two candidates: break C-H only -> not isomorphic, oracle says no;
+   break C-H and form H-O -> isomorphic, oracle says yes), so rearrs_complete_partial applies and the
+   enumeration provably returns a non-empty list; it is the single expected rearrangement. *)
+Definition ex_iso (g _ : graph) : bool := match g_edges g with [(1, 2)] => true | _ => false end.
+
+Example ex_Hiso_on : Hiso_on ex_iso ex_r ex_p.
+Proof.
+  destruct complete_premises_satisfiable as [W1 [W2 [Hn [_ [_ [_ [_ [_ HI]]]]]]]].
+  split.
+  - split; [discriminate|contradiction].
+  - intros c Hc. vm_compute in Hc. destruct Hc as [<-|[<-|[]]]; cbn [fst snd].
+    + split; [discriminate|]. intros X.
+      assert (Wa : wf (apply_edit ex_r [] [(0, 1)])).
+      { constructor; [vm_compute; constructor | vm_compute; intros e []]. }
+      destruct (iso_counts _ _ Wa W2 X) as [_ H]. vm_compute in H. discriminate.
+    + split; [intros _; exact HI | reflexivity].
+Qed.
+
+Example complete_instance :
+  exists l, get_bond_rearrangs ex_iso ex_mv (fun _ => 0) (fun _ => []) true ex_r ex_p 3 = Ok l /\ l <> [].
+Proof.
+  destruct complete_premises_satisfiable as [W1 [W2 [Hn [N1 [N2 [Hb [Hf [Hd HI]]]]]]]].
+  apply (rearrs_complete_partial ex_iso ex_mv (fun _ => 0) (fun _ => []) true ex_r ex_p 3 ex_Hiso_on W1 W2
+           [(1, 2)] [(0, 1)]); auto; cbn; lia.
+Qed.
+
 Example enumeration_runs :
-  get_bond_rearrangs (fun g _ => match g_edges g with [(1, 2)] => true | _ => false end)
-                     ex_mv (fun _ => 0) (fun _ => []) true ex_r ex_p 3
+  get_bond_rearrangs ex_iso ex_mv (fun _ => 0) (fun _ => []) true ex_r ex_p 3
   = Ok [([(1, 2)], [(0, 1)])].
 Proof. vm_compute. reflexivity. Qed.
